@@ -32,6 +32,7 @@ class Gen:
         self.comments = []  # comment texts in source order
         self.with_comments = False
         self.rich_layout = False   # extra blanks, tabs, line continuations, blank lines
+        self.ml_bodies = True      # here-document bodies may hold expansions that span lines
 
     # ---- layout
     def B(self):
@@ -105,8 +106,11 @@ class Gen:
             return "$(" + sub.simple(d - 1) + ")"
         if k < 0.92:
             return "`" + r.choice(["a", "a b", "a | b"]) + "`"
-        if k < 0.97:
+        if k < 0.96:
             return "$((" + r.choice(["1+2", "x", " x * 2 ", "$x+1", "(1)", "1<<2", "a?b:c"]) + "))"
+        if k < 0.98 and not self.pending and self.multiline:
+            # expansions that span several lines
+            return r.choice(["$(\n\ta\n\tb c\n)", "`a\nb`", "$((1 +\n2))", '"$(\n\ta\n)"', "$(a\n)", "${x:-$(\n\ta\n)}"])
         return self.lit() + self.word(d - 1)
 
     def redir(self, d):
@@ -116,7 +120,8 @@ class Gen:
             delim = r.choice(["EOF", "E", "END1"])
             q = r.choice(["", "", "'", "\\"])
             op = r.choice(["<<", "<<-"])
-            body = r.choice(["", "line\n", "a $x\n", "\n", "  two\nlines\n", "E2\n", "\tt\n", "$(c)\n", "`c`\n", "a\\\nb\n", "#nc\n", "\\$x \\\\\n"])
+            body = r.choice(["", "line\n", "a $x\n", "\n", "  two\nlines\n", "E2\n", "\tt\n", "$(c)\n", "`c`\n", "a\\\nb\n", "#nc\n", "\\$x \\\\\n",
+                             ] + (["$(\n\techo x\n)\n", "`a\nb`\n", "x $((1 +\n2)) y\n", "$(a; b\n c)\n"] if self.ml_bodies else []))
             if op == "<<-":
                 body = "".join("\t" + ln + "\n" for ln in body.split("\n")[:-1])
             tab = r.random() < 0.5
@@ -158,7 +163,8 @@ class Gen:
         """compound_list followed by a separator"""
         s = self.seq(d)
         last_line = s.split("\n")[-1]
-        simple_tail = any(ch in last_line for ch in "'\"$`#") or not s.rstrip().endswith(self.CLOSERS)
+        simple_tail = (any(ch in last_line for ch in "'\"$`#") or not s.rstrip().endswith(self.CLOSERS)
+                       or not getattr(self, "last_compound", False))
         return s + self.sep(s, before_reserved=not simple_tail)
 
     def brk(self):
@@ -191,6 +197,7 @@ class Gen:
         r = self.r
         k = r.random()
         if d <= 0 or k < 0.5:
+            self.last_compound = False
             return self.simple(d)
         d -= 1
         if k < 0.57:
@@ -237,8 +244,10 @@ class Gen:
                 c = self.name() + "() " + "( " + self.seq(d) + (self.nl() if self.pending else " ") + ")"
         else:
             c = "((" + r.choice([" 1 + 2 ", "x++", "a = b * 2", "1<2"]) + "))"
+        self.last_compound = True      # the text ends with the closing token of a compound command
         if r.random() < 0.12 and not c.startswith("(("):
             c += " " + self.redir(d)
+            self.last_compound = False
         return c
 
     def program(self, d=3):
@@ -259,12 +268,18 @@ def mutate_tokens(rnd, src):
     k = rnd.random()
     i = rnd.randrange(len(toks))
     extra = rnd.choice(["if", "then", "fi", "do", "done", "esac", "in", ")", "(", "{", "}", ";;", "|", "&&", ";", "&", "<", "'", '"', "`", "$(", "${", "!", "case", "for", "else", "elif"])
-    if k < 0.3:
+    if k < 0.25:
         del toks[i]
-    elif k < 0.6:
+    elif k < 0.5:
         toks.insert(i, extra)
-    elif k < 0.8:
+    elif k < 0.65:
         toks.insert(i, toks[i])
+    elif k < 0.8:
+        # glue an expansion, a quoting or plain text onto a token: names, reserved words, IO numbers and
+        # delimiters turn into composite words
+        g = rnd.choice(["$b", '""', "''", "\\y", "$(id)", "`y`", "$((1))", "${m}", "x", "1", "=", "=v", "-", "é"])
+        if toks[i] != "\n":
+            toks[i] = toks[i] + g if rnd.random() < 0.7 else g + toks[i]
     elif i + 1 < len(toks):
         toks[i], toks[i + 1] = toks[i + 1], toks[i]
     return " ".join(toks).replace(" \n ", "\n")
